@@ -75,11 +75,11 @@ C_UNWIND = """
     requires
         frames_ok(*old(self)), old(self).live@.contains(label),
     ensures
-        // the defers of every frame above the frame of `label` run, innermost frame first, each
-        // frame last-reached first -- and nothing else: the frame of `label` itself and the
-        // frames below it are not touched (the exit block of `label` runs its own defers)
+        // the defers of every frame from the top down to the frame of `label` run, innermost frame
+        // first, each frame last-reached first -- for `label` itself that is what it has reached
+        // SO FAR (its exit block runs none) -- and nothing else: the frames below are not touched
         exists|k: int| #[trigger] frame_of(old(self).defer_stack@, label, k)
-            && final(self).emitted@ == old(self).emitted@ + unwind(old(self).defer_stack@, k + 1, old(self).defer_stack@.len() as int),
+            && final(self).emitted@ == old(self).emitted@ + unwind(old(self).defer_stack@, k, old(self).defer_stack@.len() as int),
         // the stack of frames is as it was (code after the jump is compiled with the same frames)
         final(self).defer_stack@ == old(self).defer_stack@,
         final(self).live == old(self).live, final(self).exits == old(self).exits, final(self).continues == old(self).continues,
@@ -101,19 +101,24 @@ u.extract(F, "impl FunctionCompiler<'_>::fn run_defers_to_label", wrap=IMPLF, re
                    ('@loop_end:0', 'after', """
         proof {
             self.live = Ghost(live0);
-            assert(self.defer_stack@.len() == k + 1);
+            assert(self.defer_stack@.len() == k);
         }
 """),
                    ('@body_end', 'after', ' proof { assert(self.defer_stack@ =~= s0); } ')],
           loops={0: """
+            invariant_except_break
+                k + 1 <= self.defer_stack@.len(),
             invariant
                 frame_of(s0, label, k), self.live@ == Set::<ScopeId>::empty(),
-                k + 1 <= self.defer_stack@.len() <= s0.len(),
+                k <= self.defer_stack@.len() <= s0.len(),
                 self.defer_stack@ == s0.subrange(0, self.defer_stack@.len() as int),
                 used_frames@ == s0.subrange(self.defer_stack@.len() as int, s0.len() as int).reverse(),
                 self.emitted@ == e0 + unwind(s0, self.defer_stack@.len() as int, s0.len() as int),
                 self.exits == old(self).exits, self.continues == old(self).continues,
-            ensures self.defer_stack@.len() == k + 1,
+            ensures self.defer_stack@.len() == k,
+                used_frames@ == s0.subrange(k, s0.len() as int).reverse(), self.defer_stack@ == s0.subrange(0, k),
+                self.emitted@ == e0 + unwind(s0, k, s0.len() as int), self.live@ == Set::<ScopeId>::empty(),
+                self.exits == old(self).exits, self.continues == old(self).continues,
             decreases self.defer_stack@.len()
 """, 1: """
                 invariant
@@ -131,7 +136,7 @@ u.extract(F, "impl FunctionCompiler<'_>::fn break_to_label", wrap=IMPLF, rewrite
     ensures
         // `break` leaves every block nested in `label`: their defers run, innermost first
         exists|k: int| #[trigger] frame_of(old(self).defer_stack@, label, k)
-            && final(self).emitted@ == old(self).emitted@ + unwind(old(self).defer_stack@, k + 1, old(self).defer_stack@.len() as int),
+            && final(self).emitted@ == old(self).emitted@ + unwind(old(self).defer_stack@, k, old(self).defer_stack@.len() as int),
         final(self).defer_stack@ == old(self).defer_stack@, final(self).live == old(self).live,
 """)
 
@@ -189,7 +194,7 @@ u.extract(F, "impl FunctionCompiler<'_>::fn compile_stmt", key='stmt_continue', 
     ensures
         // `continue` leaves every block nested in the loop: their defers run, innermost first
         exists|k: int| #[trigger] frame_of(old(self).defer_stack@, label, k)
-            && final(self).emitted@ == old(self).emitted@ + unwind(old(self).defer_stack@, k + 1, old(self).defer_stack@.len() as int),
+            && final(self).emitted@ == old(self).emitted@ + unwind(old(self).defer_stack@, k, old(self).defer_stack@.len() as int),
         final(self).defer_stack@ == old(self).defer_stack@,
 ''')
 
@@ -223,9 +228,9 @@ POPEXP = Rewrite('R6', r'\.expect\("we just pushed this"\)', '.unwrap()', count=
 DBG = Rewrite('R6', r'debug_assert_eq!\(defer_frame\.id, scope_id\);', '', count=1, why='debug assertion dropped')
 u.extract(F, "impl FunctionCompiler<'_>::fn compile_expr_with_args", key='block_exit', wrap=IMPLF, rewrites=[POPEXP, DBG],
           desugar_for={0: ('di', 'rev_ref')},
-          lift=dict(start_at='let defer_frame = self.defer_stack.pop()', end_before='\n\n                if final_ty.into_real_type().is_some() {\n                    Some(self.builder.block_params(exit_block)[0])',
+          lift=dict(start_at='let defer_frame = self.defer_stack.pop()', end_before='\n\n                if !no_eval {\n                    if let Some(value) = value {',
                     sig='fn block_exit(&mut self, no_eval: bool, scope_id: Option<ScopeId>)',
-                    why='the end of the Expr::Block arm of compile_expr_with_args (in the exit block: pop the frame, run its defers) lifted into a method'),
+                    why='the fall-through end of the Expr::Block arm of compile_expr_with_args (pop the frame and run its defers, before the jump to the exit block) lifted into a method'),
           inserts=[('@loop_start:0', 'after', ' proof { lemma_run_step(defer_frame, di as int); } '),
                    ('@loop_end:0', 'after', ' proof { lemma_run_ends(defer_frame); } '),
                    ('@after_stmt:let defer_frame =', 'after', ' proof { lemma_run_ends(defer_frame); } ')],
@@ -235,11 +240,12 @@ u.extract(F, "impl FunctionCompiler<'_>::fn compile_expr_with_args", key='block_
         // the labels still live are those of the constructs around this block
         forall|l: ScopeId| old(self).live@.contains(l) ==> #[trigger] has_frame(old(self).defer_stack@.drop_last(), l),
     ensures
-        // the block is left: its frame is gone and -- unless its end is unreachable -- its defers
-        // ran here, last reached first
+        // the block is left through its end: its frame is gone and -- unless the end is
+        // unreachable -- its defers run here, last reached first (a `break` out of the block has
+        // run the defers it had reached itself: run_defers_to_label)
         final(self).defer_stack@ == old(self).defer_stack@.drop_last(),
-        (!no_eval || scope_id is Some) ==> final(self).emitted@ == old(self).emitted@ + frame_run(old(self).defer_stack@.last()),
-        !(!no_eval || scope_id is Some) ==> final(self).emitted@ == old(self).emitted@,
+        !no_eval ==> final(self).emitted@ == old(self).emitted@ + frame_run(old(self).defer_stack@.last()),
+        no_eval ==> final(self).emitted@ == old(self).emitted@,
 ''',
           loops={0: '''
                     invariant
@@ -293,14 +299,20 @@ MUTANTS = [
                 self.run_defers_to_label(label);
 ''', '', 'violation'),
     # others
-    (F, '            for defer in frame.defers.iter().rev() {\n                self.compile_expr(*defer);\n            }\n\n            used_frames.push', '            for defer in frame.defers.iter() {\n                self.compile_expr(*defer);\n            }\n\n            used_frames.push', 'undecided'),
-    (F, '''                if id == label {
-                    break;
-                }''', '''                if id != label {
-                    break;
-                }''', 'violation'),
-    (F, 'if !no_eval || scope_id.is_some() {\n                    debug_assert_eq!', 'if !no_eval && scope_id.is_some() {\n                    debug_assert_eq!', 'violation'),
-    (F, '            used_frames.push(self.defer_stack.pop().unwrap());\n        }\n\n        self.defer_stack.extend(used_frames.into_iter().rev());', '            used_frames.push(self.defer_stack.pop().unwrap());\n        }\n', 'violation'),
+    (F, '            for defer in frame.defers.iter().rev() {\n                self.compile_expr(*defer);\n            }\n\n            used_frames.push', '            for defer in frame.defers.iter() {\n                self.compile_expr(*defer);\n            }\n\n            used_frames.push', 'violation'),
+    (F, '''            if frame.id == Some(label) {
+                break;
+            }''', '''            if frame.id != Some(label) {
+                break;
+            }''', 'violation'),
+    # the third repaired defect, re-introduced: the target block's own reached defers are not run by the break
+    (F, '''            // do it in reverse to make sure later defers can still rely on the allocations of
+            // previous defers
+            for defer in frame.defers.iter().rev() {''', '''            if frame.id == Some(label) { break; }
+            // previous defers
+            for defer in frame.defers.iter().rev() {''', 'violation'),
+    (F, '                if !no_eval {\n                    // do it in reverse to make sure later defers can still rely on the allocations of\n                    // previous defers\n                    for defer in defer_frame.defers.iter().rev() {', '                if no_eval {\n                    // do it in reverse to make sure later defers can still rely on the allocations of\n                    // previous defers\n                    for defer in defer_frame.defers.iter().rev() {', 'violation'),
+    (F, '                break;\n            }\n        }\n\n        self.defer_stack.extend(used_frames.into_iter().rev());', '                break;\n            }\n        }\n', 'violation'),
     (F, '''                    self.break_to_label(None, label);
                 } else if union_ty.is_optional() {''', '''                    let exit_block = self.exits[&label];
                     self.builder.ins().jump(exit_block, &[]);
@@ -350,6 +362,6 @@ u.extract(F, "impl FunctionCompiler<'_>::fn compile_expr_with_args", key='try_fa
         // a failing `.try` leaves every block nested in the target block: their defers run,
         // innermost first, whatever value is handed over
         exists|k: int| #[trigger] frame_of(old(self).defer_stack@, label, k)
-            && final(self).emitted@ == old(self).emitted@ + unwind(old(self).defer_stack@, k + 1, old(self).defer_stack@.len() as int),
+            && final(self).emitted@ == old(self).emitted@ + unwind(old(self).defer_stack@, k, old(self).defer_stack@.len() as int),
         final(self).defer_stack@ == old(self).defer_stack@,
 ''')
